@@ -438,11 +438,16 @@ impl AnnotationStore {
     /// Builds and inserts an AnnotationData item
     pub fn insert_data(
         &mut self,
-        dataitem: AnnotationDataBuilder,
+        mut dataitem: AnnotationDataBuilder,
     ) -> Result<(AnnotationDataSetHandle, AnnotationDataHandle), StamError> {
         debug(self.config(), || {
             format!("AnnotationStore.insert_data: dataitem={:?}", dataitem)
         });
+        if dataitem.dataset.is_none() {
+            // no dataset was specified at all: use the one named 'default-annotationset'
+            // (created below when it is not there yet)
+            dataitem.dataset = BuildItem::Id("default-annotationset".into());
+        }
         // Obtain the dataset for this data item
         let dataset: &mut AnnotationDataSet = if let Ok(dataset) = self.get_mut(&dataitem.dataset) {
             dataset
